@@ -5,6 +5,8 @@ import (
 	"os"
 	"syscall"
 
+	"github.com/spf13/afero"
+
 	"github.com/ARM-software/golang-utils/utils/zz_verif/verif"
 )
 
@@ -92,6 +94,30 @@ func vFileOnTheWay(snap []vNode, p string) bool {
 		}
 	}
 	return false
+}
+
+// vBackendConsistent: what a walk of the backend shows agrees with what direct
+// access shows, for every path of the alphabet (afero's MemMapFs can be left
+// with entries that are reachable by path but not listed, or with a directory
+// that also carries file data, after calls with conflicting arguments).
+func vBackendConsistent(inner afero.Fs) bool {
+	idx := vIndex(vSnapshot(inner, "/"))
+	for _, p := range vC06Paths {
+		fi, err := inner.Stat(p)
+		n, listed := idx[p]
+		if (err == nil) != listed {
+			return false
+		}
+		if listed && fi.IsDir() != n.dir {
+			return false
+		}
+		if listed && n.dir {
+			if b, err := afero.ReadFile(inner, p); err == nil && len(b) > 0 {
+				return false
+			}
+		}
+	}
+	return true
 }
 
 func vSubtree(snap []vNode, root string) []vNode {
@@ -227,6 +253,12 @@ func VerifC06_Programs() {
 			verif.Assert("query_changes_nothing", vSameTree(before, vSnapshot(rec.inner, "/")))
 		}
 		verif.Assert("no_handle_left_open", rec.opens == rec.closes)
+		rec.before = nil
+		if !vBackendConsistent(rec.inner) {
+			// a later call would start from a state no consistent filesystem can be in
+			verif.AssertKnown("backend_state_stays_consistent", false, "KF-C06-memory-backend-inconsistent-after-conflicting-call", true)
+			verif.Stop()
+		}
 		rec.before = func(op *vOp) error {
 			budget--
 			return nil
